@@ -223,6 +223,23 @@ Section Oracle.
     eapply restart_core; eauto. discriminate.
   Qed.
 
+  (* ... and the restored RECORDS are the acknowledged ones field by field, the expiry included: a restart
+     remembers the last acknowledged expiry of every lease *)
+  Lemma restart_records :
+    yaml_roundtrip ->
+    forall c cap0 i0 s cap t ord,
+      new c cap0 i0 = Ok s ->
+      persistable (d_n1 s) t = true ->
+      NoDup (map l_cid t) -> Permutation ord t ->
+      exists s', new c cap (read (print (save (d_n1 s) (d_n2 s) ord))) = Ok s'
+                 /\ Permutation (map l_rec (d_table s')) (map l_rec (filter allocated t)).
+  Proof.
+    intros Hy c cap0 i0 s cap t ord Hnew Hi Hnd Hp.
+    destruct (restart_partial Hy c cap0 i0 s cap t ord Hnew Hi Hnd Hp) as (s' & E & _ & _ & Et & _).
+    exists s'. split; auto. rewrite Et, map_map. unfold save_leases. simpl.
+    rewrite map_id. apply Permutation_map. apply Permutation_filter'. exact Hp.
+  Qed.
+
   (* The crash-point / corruption clause.  [dmg x y]: text x is a damaged version of text y (the damage model:
      truncation at a byte offset, substitution, line deletion/duplication ... whatever the integrity line is
      trusted to detect).  [checksum_detects]: reading a damaged version of a saved file gives an error, or a
